@@ -225,7 +225,7 @@ Proof.
   assert (Hload : forall f s0, ptr_ok s0 -> ptr_ok (snd (load_fiber cell f s0))).
   { intros f s0 H0. destruct (load_fiber_state cell f s0) as [E|[l E]]; rewrite E; auto.
     intros i Hi; exact Hi. }
-  destruct o as [f ok|f|]; cbn [fstep].
+  destruct o as [f ok|f| |]; cbn [fstep].
   - unfold execute. destruct ok.
     + apply Hload. intros i Hi; cbn in Hi; discriminate.
     + intros i Hi; cbn in Hi; discriminate.
@@ -233,6 +233,8 @@ Proof.
   - unfold unload_fiber. destruct (active cell s) as [[a|]|r]; cbn [snd]; auto.
     destruct (caller_of (callers s) a) as [c|]; cbn [snd]; auto.
     destruct (fiber s); cbn [snd]; intros i Hi; exact Hi.
+  - unfold capture_upvalue. destruct (active cell s) as [[a|]|r]; cbn [snd]; auto.
+    destruct (fiber s); cbn [snd]; auto.
 Qed.
 
 Lemma ptr_ok_run : forall cell ops s, ptr_ok s -> ptr_ok (snd (frun cell ops s)).
@@ -261,12 +263,18 @@ Proof.
     destruct (load_pre cell s0) as [r|] eqn:Ep.
     - intros E0; inversion E0; subst. destruct (load_pre_cases _ _ _ Ep); discriminate.
     - rewrite active_new. intros E0; inversion E0; subst; cbn. split; [reflexivity|discriminate]. }
-  destruct o as [f ok|f|]; cbn [fstep] in E.
+  destruct o as [f ok|f| |]; cbn [fstep] in E.
   - unfold execute in E. destruct ok; [eapply Hload; eauto | discriminate].
   - eapply Hload; eauto.
   - unfold unload_fiber in E. destruct (active cell s) as [[a|]|r] eqn:Ea; try discriminate.
     + destruct (caller_of (callers s) a) as [c|]; [|discriminate].
       destruct (fiber s); inversion E; subst; cbn; split; auto; discriminate.
+    + inversion E; subst. unfold active in Ea. destruct cell.
+      * destruct (fiber s'); discriminate.
+      * destruct (unsafe_fiber s') as [p|]; destruct (fiber s') as [i|]; try discriminate.
+        destruct (N.eqb p i); discriminate.
+  - unfold capture_upvalue in E. destruct (active cell s) as [[a|]|r] eqn:Ea; try discriminate.
+    + destruct (fiber s); discriminate.
     + inversion E; subst. unfold active in Ea. destruct cell.
       * destruct (fiber s'); discriminate.
       * destruct (unsafe_fiber s') as [p|]; destruct (fiber s') as [i|]; try discriminate.
@@ -300,10 +308,13 @@ Proof.
   intros o s H Hp.
   assert (Hload : forall f s0, ptr_ok s0 -> load_fiber false f s0 = load_fiber true f s0).
   { intros f s0 H0. unfold load_fiber. rewrite (load_pre_agree s0 H0), !active_new. reflexivity. }
-  destruct o as [f ok|f|]; cbn [fstep] in *.
+  destruct o as [f ok|f| |]; cbn [fstep] in *.
   - unfold execute. destruct ok; [|reflexivity]. apply Hload. intros i Hi; cbn in Hi; discriminate.
   - apply Hload, H.
   - unfold unload_fiber in *. destruct (fiber s) as [i|] eqn:Ef.
+    + rewrite (active_agree s H) by (rewrite Ef; discriminate). reflexivity.
+    + exfalso. apply Hp. unfold active. rewrite Ef. reflexivity.
+  - unfold capture_upvalue in *. destruct (fiber s) as [i|] eqn:Ef.
     + rewrite (active_agree s H) by (rewrite Ef; discriminate). reflexivity.
     + exfalso. apply Hp. unfold active. rewrite Ef. reflexivity.
 Qed.
@@ -313,11 +324,26 @@ Proof.
   assert (Hload : forall f s0, fst (load_fiber true f s0) <> FUB).
   { intros f s0. unfold load_fiber. destruct (caller_of (callers s0) f); [discriminate|].
     unfold load_pre, active. destruct (fiber s0); cbn; discriminate. }
-  intros o s. destruct o as [f ok|f|]; cbn [fstep].
+  intros o s. destruct o as [f ok|f| |]; cbn [fstep].
   - unfold execute. destruct ok; [apply Hload | discriminate].
   - apply Hload.
   - unfold unload_fiber, active. destruct (fiber s) as [i|]; [|discriminate].
     destruct (caller_of (callers s) i); discriminate.
+  - unfold capture_upvalue, active. destruct (fiber s) as [i|]; discriminate.
+Qed.
+
+(* T `capture_owner_is_active`: capture_upvalue reads the fiber whose stack holds the captured slot through the build's
+   representation and the owner it records in the new upvalue through the cell.  In every build, after every history,
+   the two are the same fiber: the mixed use of both representations inside one function cannot be observed. *)
+Theorem capture_owner_is_active : forall cell ops a o s',
+  fstep cell OCapture (snd (frun cell ops f_init)) = (FCaptured a o, s') -> a = o.
+Proof.
+  intros cell ops a o s' E.
+  pose proof (fiber_ptr_inv cell ops) as H. set (s := snd (frun cell ops f_init)) in *.
+  cbn [fstep] in E. unfold capture_upvalue, active in E. destruct cell.
+  - destruct (fiber s) as [i|]; [|discriminate]. inversion E; reflexivity.
+  - destruct (unsafe_fiber s) as [p|] eqn:Ep; destruct (fiber s) as [i|] eqn:Ef; try discriminate.
+    destruct (N.eqb p i) eqn:Epi; [|discriminate]. inversion E; subst. apply N.eqb_eq in Epi. exact Epi.
 Qed.
 
 (* T `fiber_repr_equiv`: on every operation sequence on which the borrow-checked representation does not
@@ -354,7 +380,9 @@ Example ex_fiber_equiv :
   fst (frun true ops f_init) =
     [FOk; FOk; FOk; FOk; FOk; FOk; FOk; FErr "Cannot yield from module-level code."; FOk; FOk;
      FErr "Cannot call a fiber that has already been called."] /\
-  fiber (snd (frun false ops f_init)) = Some 2 /\ unsafe_fiber (snd (frun false ops f_init)) = Some 2.
+  fiber (snd (frun false ops f_init)) = Some 2 /\ unsafe_fiber (snd (frun false ops f_init)) = Some 2 /\
+  fst (frun false [OExecute 1 true; OCapture; OLoad 2; OCapture; OUnload; OCapture] f_init) =
+    [FOk; FCaptured 1 1; FOk; FCaptured 2 2; FOk; FCaptured 1 1].
 Proof. repeat split; vm_compute; reflexivity. Qed.
 
 (* the two representations differ exactly where the checked one panics: an access with no active fiber *)
@@ -367,6 +395,7 @@ Proof. repeat split; vm_compute; reflexivity. Qed.
 Print Assumptions fiber_ptr_inv.
 Print Assumptions fiber_ptr_eq_after_ok.
 Print Assumptions fiber_repr_equiv.
+Print Assumptions capture_owner_is_active.
 
 (* ================================================================================================ *)
 (* 3. Configurations *)
